@@ -105,7 +105,9 @@ type Prod struct {
 	PosStyle int     `json:"pos_style"`       // 0 plain Pos/EndPos/Tokens, 1 embedded mixin, 2 convertible position type, 3 none
 	TagStyle int     `json:"tag_style"`       // 0 whole tag, 1 parser:"..."
 	Tight    bool    `json:"tight"`           // omit optional whitespace between tag tokens
-	Embed    int     `json:"embed,omitempty"` // Go-source rendering: the first Embed fields live in an embedded named struct
+	Embed    int     `json:"embed,omitempty"` // the first Embed fields live in an embedded struct (Go source: named; StructOf: when EmbedDepth > 0)
+	// StructOf rendering: the embedded struct is itself embedded EmbedDepth-1 more times by value (0: no embedding)
+	EmbedDepth int `json:"embed_depth,omitempty"`
 }
 
 type Union struct {
@@ -468,6 +470,18 @@ func (g *Grammar) Types() []reflect.Type {
 				ft = reflect.SliceOf(tPTok)
 			}
 			sf = append(sf, reflect.StructField{Name: fmt.Sprintf("F%d", fi), Type: ft, Tag: tags[fi]})
+		}
+		if p.EmbedDepth > 0 && p.Embed > 0 && p.Embed <= len(p.Fields) {
+			// the leading grammar fields move into a struct embedded by value, EmbedDepth levels deep; they stay
+			// the first grammar fields of the production (embedded fields are flattened in declaration order)
+			at := len(sf) - len(p.Fields)
+			inner := reflect.StructOf(append([]reflect.StructField(nil), sf[at:at+p.Embed]...))
+			for d := 1; d < p.EmbedDepth; d++ {
+				inner = reflect.StructOf([]reflect.StructField{{Name: fmt.Sprintf("E%d", d), Type: inner, Anonymous: true}})
+			}
+			rest := append([]reflect.StructField(nil), sf[at+p.Embed:]...)
+			sf = append(sf[:at:at], reflect.StructField{Name: fmt.Sprintf("E%d", p.EmbedDepth), Type: inner, Anonymous: true})
+			sf = append(sf, rest...)
 		}
 		sf = append(sf, reflect.StructField{Name: fmt.Sprintf("Marker%d_%d", typeSerial, i), Type: tEmpty})
 		types[i] = reflect.StructOf(sf)
